@@ -324,6 +324,7 @@ class Writer:
             elif isinstance(n, ast.Expr) and isinstance(n.value, ast.Call) and isinstance(n.value.func, ast.Attribute) \
                     and n.value.func.attr in ('extend', 'append') and isinstance(n.value.func.value, ast.Name) and n.value.args:
                 self.assigns.setdefault(n.value.func.value.id, []).append((n.value.args[0], n))
+        self.masked: list[str] = []
         self.aliases: set[str] = set()
         for name, lst in self.assigns.items():
             if any(isinstance(v, ast.Attribute) and isinstance(v.value, ast.Name) and v.value.id in self.recvars for v, _ in lst):
@@ -397,6 +398,8 @@ class Writer:
         if isinstance(e, (ast.ListComp, ast.GeneratorExp)):
             return set().union(*[self.W(g.iter, role, seen) for g in e.generators])
         if isinstance(e, (ast.BinOp, ast.UnaryOp, ast.BoolOp, ast.Compare, ast.IfExp, ast.Tuple, ast.List)):
+            if isinstance(e, ast.BinOp) and isinstance(e.op, (ast.BitAnd, ast.Mod)):
+                self.masked.append(f'{self.fn.name}:{e.lineno}: {ast.unparse(e)[:60]}')
             out = set()
             for c in ast.iter_child_nodes(e):
                 if isinstance(c, ast.expr):
@@ -448,6 +451,9 @@ class Writer:
         return out
 
 
+MASKED: list[str] = []
+
+
 def writer_slots(fn: ast.FunctionDef, site: dict, flags: dict[str, bool], ann: dict[str, dict[str, str]]) -> list[list[str]]:
     wr = Writer(fn, flags, ann)
     if site['call'] == 'struct.pack':
@@ -470,7 +476,40 @@ def writer_slots(fn: ast.FunctionDef, site: dict, flags: dict[str, bool], ann: d
         if not t:
             raise TranslateError(f'{fn.name}: line {a.lineno}: packed value `{ast.unparse(a)[:50]}` mentions no attribute of the record')
         out.append(t)
+    MASKED.extend(m for m in wr.masked if m not in MASKED)
     return out
+
+
+def pack_call_census(fns: dict[str, ast.FunctionDef], helpers: dict[str, ast.FunctionDef], sites: dict[str, list[dict]],
+                     helper_sites: dict[str, list[dict]]) -> int:
+    """Every call that turns values into bytes inside a lump function must be one of the sites of the format census
+    (struct.pack / write_array / defer with a recognised format, or .pack() on a recognised layout entry or Struct).
+    Anything else (an unknown `.pack(`, `pack_into`, `int.to_bytes`) fails closed."""
+    n = 0
+    for name, f in list(fns.items()) + list(helpers.items()):
+        if name in F.CONTAINER_FUNCS:
+            continue
+        known: set[int] = set()
+        for s in (sites.get(name, []) if name in fns else helper_sites.get(name, [])):
+            if 'via' in s:
+                continue
+            if s['call'] == 'struct.pack':
+                known.add(id(s['node']))
+            elif s['call'] in ('layout', 'struct.Struct'):
+                for c in F._pack_calls(s['owner'], s):
+                    known.add(id(c))
+        for c in ast.walk(f):
+            if not isinstance(c, ast.Call):
+                continue
+            fu = ast.unparse(c.func)
+            is_pack = fu in ('struct.pack', 'struct.pack_into') or \
+                (isinstance(c.func, ast.Attribute) and c.func.attr in ('pack', 'pack_into', 'to_bytes'))
+            if not is_pack:
+                continue
+            n += 1
+            if id(c) not in known:
+                raise TranslateError(f'{name}: line {c.lineno}: `{fu}(...)` produces bytes but is not a site of the format census')
+    return n
 
 
 # ------------------------------------------------------------------------------------------------ bit packing constants
@@ -563,6 +602,7 @@ def generate(tree: ast.Module) -> tuple[str, dict]:
     classes, ann = class_tables(tree)
 
     lines = []
+    MASKED.clear()
     side: dict[str, Any] = {'records': {}}
     for rname, sname, flags, lays in RECORDS:
         if sname not in streams:
@@ -583,6 +623,8 @@ def generate(tree: ast.Module) -> tuple[str, dict]:
         def cl(slots: list[list[str]]) -> str:
             return '[' + '; '.join('[' + '; '.join(F.coq_s(t) for t in s) + ']' for s in slots) + ']'
         lines.append(f'  ({F.coq_s(rname)}, {F.coq_s(sname)}, [{"; ".join(F.coq_s(x) for x in lays)}],\n    {cl(rs)},\n    {cl(ws)})')
+    side['pack_calls_in_census'] = pack_call_census(fns, helpers, sites, helper_sites)
+    side['masked_before_pack'] = list(MASKED)
     sc = shift_constants(fns, fold)
     # every value a VisLeafFlags member can take (explicit members; add_unknown(locals(), n) names all bits below n)
     flag_vals: list[int] = []
@@ -610,6 +652,9 @@ def generate(tree: ast.Module) -> tuple[str, dict]:
         '   (reader count mask, reader flag mask, writer largest count, writer flag bit) *)',
         f'Definition overlay_bits : nat * nat * nat := ({o[0]}%nat, {o[1]}%nat, {o[2]}%nat).',
         f'Definition face_prim_bits : N * N * N * N := ({fp[0]}%N, {fp[1]}%N, {fp[2]}%N, {fp[3]}%N).',
+        '(* pack arguments of the records above that apply `&` or `%` to a value (silent narrowing before struct can reject) *)',
+        'Definition masked_before_pack : list string := [' + '; '.join(F.coq_s(m.replace('"', "'")) for m in MASKED) + '].',
+        f'Definition pack_calls_in_census : nat := {side["pack_calls_in_census"]}%nat.',
         f'Definition leaf_flag_values : list N := [{"; ".join(str(v) for v in flag_vals)}]%N.',
         f'Definition leaf_area_shift_from_layout : bool := {"true" if sc["leaf_area_shift_from_layout"] else "false"}.',
         f'Definition bevel_masks_complementary : bool := {"true" if sc["bevel_masks_complementary"] else "false"}.',
